@@ -346,7 +346,7 @@ pub fn run(ctx: &Ctx) -> Report {
      messages between every pair of frames, extra handshake keys); adversarial family: bounded-exhaustive enumeration of all message sequences up to length 2 (quick: + sampled length 3; thorough: all length 3 + sampled length 4) over 22 faults, \
      plus TCP/extension handshake variants; end-to-end `imdl torrent from-link` against a simulated UDP tracker + peers; non-trivial = more than one piece or any fault; distinct by script hash",
   );
-  report.rule.push_str("; ordinary messages up to 100 000 bytes and of other extensions (port, fast extension, v2 hash messages) between pieces; other capability bits in the handshake; a reactive peer that sends its extended handshake only after the client's; end to end: hybrid links (a v2 topic first), a tracker that misses the first datagram of each request, the announce sent by from-link judged like any other");
+  report.rule.push_str("; ordinary messages up to 100 000 bytes and of other extensions (port, fast extension, v2 hash messages) between pieces; other capability bits in the handshake; a reactive peer that sends its extended handshake only after the client's; an honest seeder that sends nothing but a keep-alive every second for twelve seconds before it starts; end to end: several peers whose extended handshakes are nested 1000 to 5000 levels deep (the fetches then run on worker threads), hybrid links (a v2 topic first), a tracker that misses the first datagram of each request, the announce sent by from-link judged like any other");
   report.correspondences.push("C11.fetch: result, returned dictionary and piece requests of the real peer client = Imdlv.Peer.fetch with the model's typed readers".into());
   let scripts: Vec<Script> = match super::replay_cases(ctx) {
     Some(rc) => rc.iter().filter_map(Script::from_json).collect(),
@@ -555,6 +555,43 @@ pub fn run(ctx: &Ctx) -> Report {
   if ctx.replay.is_some() {
     return report;
   }
+  // ---- an honest but slow seeder, played while the end-to-end scenarios run: a keep-alive every second for twelve
+  // (thorough: twenty-five) seconds, only then the extended handshake and the pieces; every read returns within the
+  // client's own timeout, so the fetch has to succeed
+  let slow = {
+    let mut rng = Rng::new(ctx.seed).fork(0xC115);
+    let script = honest(&mut rng, 20_000, "slow");
+    let secs = ctx.n(12, 25);
+    let listener = std::net::TcpListener::bind("127.0.0.1:0").expect("bind loopback TCP");
+    let addr = listener.local_addr().unwrap();
+    let incoming = script.incoming.clone();
+    let peer = std::thread::spawn(move || {
+      use std::io::{Read, Write};
+      if let Ok((mut c, _)) = listener.accept() {
+        let mut hs = [0u8; 68];
+        let _ = c.read_exact(&mut hs);
+        let _ = c.write_all(&incoming[..68]);
+        for _ in 0..secs {
+          std::thread::sleep(std::time::Duration::from_secs(1));
+          if c.write_all(&[0, 0, 0, 0]).is_err() {
+            return;
+          }
+        }
+        let _ = c.write_all(&incoming[68..]);
+        // (the requests are read and ignored: everything has been sent already)
+        let _ = c.set_read_timeout(Some(std::time::Duration::from_secs(5)));
+        let mut sink = [0u8; 4096];
+        while let Ok(n) = c.read(&mut sink) {
+          if n == 0 {
+            break;
+          }
+        }
+      }
+    });
+    let target = script.target;
+    let client = std::thread::spawn(move || std::panic::catch_unwind(move || imdl::verif::peer_fetch(addr, target)).unwrap_or(Err("panic".into())));
+    (script, secs, peer, client)
+  };
   // ---- end to end: `imdl torrent from-link` with a simulated tracker and peers
   let mut rng = Rng::new(ctx.seed).fork(0xC11E);
   for i in 0..ctx.n(12, 200) {
@@ -562,7 +599,22 @@ pub fn run(ctx: &Ctx) -> Report {
     let good = honest(&mut rng, size, "e2e");
     let served = good.served.clone().unwrap();
     let bad = rng.chance(1, 2);
-    let scenario = if bad { *rng.pick(&["all-peers-lie", "no-peers", "tracker-silent"]) } else { *rng.pick(&["one-good", "good-among-bad"]) };
+    let mut scenario = if bad { *rng.pick(&["all-peers-lie", "no-peers", "tracker-silent", "deeply-nested-handshakes"]) } else { *rng.pick(&["one-good", "good-among-bad"]) };
+    // (every run has the two peers whose extended handshakes are nested as deeply as the decoder allows, and deeper: with
+    // several peers the fetches run on worker threads, whose stacks are not the main thread's)
+    let bad = bad || i < 2;
+    if i < 2 {
+      scenario = "deeply-nested-handshakes";
+    }
+    let deep = |depth: usize| -> PeerRun {
+      let mut inc = handshake(&good.target, true);
+      let mut body = format!("d1:md11:ut_metadatai1ee13:metadata_sizei{}e1:z", served.len()).into_bytes();
+      body.extend(std::iter::repeat(b'l').take(depth));
+      body.extend(std::iter::repeat(b'e').take(depth));
+      body.push(b'e');
+      inc.extend_from_slice(&ext(0, &body));
+      PeerRun::start(inc, vec![])
+    };
     let mut peers: Vec<PeerRun> = Vec::new();
     let lying = |rng: &mut Rng| {
       if rng.chance(1, 4) {
@@ -585,6 +637,11 @@ pub fn run(ctx: &Ctx) -> Report {
       "all-peers-lie" => {
         peers.push(lying(&mut rng));
         peers.push(lying(&mut rng));
+      }
+      "deeply-nested-handshakes" => {
+        for depth in if i % 2 == 0 { [1000usize, 2040, 2047] } else { [2046usize, 2048, 5000] } {
+          peers.push(deep(depth));
+        }
       }
       _ => {}
     }
@@ -650,6 +707,17 @@ pub fn run(ctx: &Ctx) -> Report {
       if span.as_deref() != Some(served.as_slice()) {
         report.fail("property", "from-link-info-not-identical", case, "the written info dictionary is not byte-identical to the one served".into());
       }
+    }
+  }
+  {
+    let (script, secs, peer, client) = slow;
+    let result = client.join().unwrap_or(Err("panic".into()));
+    let _ = peer.join();
+    let case = json!({"slow_honest_seeder": {"keep_alives_one_second_apart": secs, "size": script.served.as_ref().map(|s| s.len())}});
+    report.case(Some(fnv(case.to_string().as_bytes())));
+    report.hit("honest:slow-seeder");
+    if result.as_ref().ok() != script.served.as_ref() {
+      report.fail("property", "honest-peer-not-understood", case, format!("a seeder that sends a keep-alive every second for {secs} s and then serves the dictionary honestly: {}", match &result { Ok(b) => format!("{} other bytes returned", b.len()), Err(e) => e.clone() }));
     }
   }
   report
